@@ -53,6 +53,12 @@ def cases(draw, nums=("frac",), ops=None, alike=False):
         dimA = draw(st.sampled_from([0, 0, 2]))
     PA = draw(gen.ctrlpoints(nA, dimA, positive_values() if op == "rdiv" else None))
     PB = draw(gen.ctrlpoints(nB, dimB, positive_values() if op == "div" else None))
+    if op in ("rdiv", "div") and draw(st.integers(0, 2)) == 0:
+        # a divisor that is negative on the whole interval has no zero either
+        if op == "rdiv":
+            PA = [-x for x in PA]
+        else:
+            PB = [-x for x in PB]
     A = {"U": U, "p": p, "P": PA, "w": draw(gen.pos_weights(nA)) if ratA else None, "num": num}
     B = {"U": V, "p": q, "P": PB, "w": draw(gen.pos_weights(nB)) if ratB else None, "num": num}
     s = draw(st.sampled_from([F(0), F(1), F(-1), F(2), F(-3, 2), F(5, 7), F(1, 3), F(3), F(-7), F(12)]))
